@@ -1566,3 +1566,34 @@ def schema_from_events(d, ci):
 
 
 CHECKS["C14"] = c14
+
+
+# =========================================================================== replay of a recorded violation
+def replay(prop, path):
+    """Re-executes the failing case recorded in a replay file on the current working tree."""
+    import sys
+    from vlib import farm, judge, run_driver
+    d = json.load(open(path))
+    r = d.get("replay", {})
+    if "source" in r and isinstance(r.get("case"), dict) and "failed" not in r["case"]:
+        b = farm().build("replay:" + d["key"], r["source"])
+        if b["status"] != "ok":
+            print("program does not build on this tree: %s\n%s" % (b["status"], b["detail"]))
+            print("VIOLATION property=%s replay=%s" % (prop, path))
+            sys.exit(1)
+        c = dict(r["case"])
+        c["id"] = "0:0"
+        env = {"VERIF_GOMAXPROCS": "1"} if "sched" in c else None
+        evs = [e for e in run_driver(b, {"cases": [c]}, "replay", env_extra=env) if e.get("ev") != "DriverDied"]
+        vs, _ = judge(evs, [prop, "HARNESS"], tag="replay", chunks=1)
+        vs = [v for v in vs if v["prop"] == prop]
+        for v in vs:
+            print("conjunct %s fails at event %d" % (v["conjunct"], v["line"]))
+        if vs:
+            print("VIOLATION property=%s replay=%s" % (prop, path))
+            sys.exit(1)
+        print("not reproduced on this tree: %s" % d.get("what"))
+        sys.exit(0)
+    print(json.dumps(d, indent=1)[:4000])
+    print("this replay file records the failing input; re-run `bin/check %s` to re-evaluate it" % prop)
+    sys.exit(0)
